@@ -3,8 +3,8 @@ from ..tlc import MachineryError
 from . import interp_common as IC
 from .c05 import replay  # noqa: F401
 
-GROUPS = {"quick": ["InitPath(3)", "InitPaint(3)", "InitPathCtm(3)", "InitColor(3)", "InitColorRes(2)", "InitPass(2)", "InitZero", "InitZero2", "InitMixed"],
-          "thorough": ["InitPath(4)", "InitPaint(4)", "InitPathCtm(4)", "InitColor(4)", "InitColorRes(4)", "InitPass(3)", "InitZero", "InitZero2", "InitMixed"]}
+GROUPS = {"quick": ["InitPath(3)", "InitPaint(3)", "InitPathCtm(3)", "InitColor(3)", "InitColorRes(2)", "InitPass(2)", "InitZero", "InitZero2", "InitDeepQ", "InitMixed"],
+          "thorough": ["InitPath(4)", "InitPaint(4)", "InitPathCtm(4)", "InitColor(4)", "InitColorRes(4)", "InitPass(3)", "InitZero", "InitZero2", "InitDeepQ", "InitMixed"]}
 
 
 def run(ck):
